@@ -58,9 +58,14 @@ for _a in range(len(MANY)):
 for _name in ("same-var-overlap", "same-var-disjoint", "pickled-copy", "different-vars", "same-var-single-lines", "three-threads"):
     SCENARIOS[f"shared-handle:{_name}"] = {"product": "shared", "threads": SCENARIOS[_name]}
 
+# the product lies on the LOCAL filesystem (fsspec's LocalFileSystem: ``local_file`` true), its reads observable / schedulable
+for _name in ("same-var-overlap", "same-var-disjoint", "pickled-copy", "different-vars", "same-var-single-lines", "same-var-line-then-slice", "three-threads", "three-same-var-arrays"):
+    SCENARIOS[f"local-fs:{_name}"] = {"product": "local", "threads": SCENARIOS[_name]}
+
 _ctx = {}
 _many = {}
 _shared = {}
+_local = {}
 
 
 def install_shims():
@@ -134,6 +139,20 @@ def setup_shared():
     return _shared
 
 
+def setup_local():
+    if _local:
+        return _local
+    c = setup()
+    images = [synth.image_spec("HH", None, 5, 4, "IU2"), synth.image_spec("HV", None, 5, 4, "IU2")]
+    files, _ = synth.build(synth.product_spec("1.5", images=images))
+    prod = harness.Product(files, "mclocal")
+    tree = prod.open(use_cache=False, records_per_chunk=2)
+    ref = {n: np.asarray(tree[f"imagery/{n}/data"].values).copy() for n in ("HH", "HV")}
+    _local.update({"prod": prod, "orig": tree, "blob": pickle.dumps(tree), "ref": ref, "prefix": c["prefix"], "names": ["HH", "HV"]})
+    _local["libstate"] = libstate.Snapshot()
+    return _local
+
+
 def rows_of(sel):
     if isinstance(sel, tuple) and sel[0] == "a":
         return list(sel[1])
@@ -147,7 +166,7 @@ def label(ev):
 def scenario(name, lines):
     sc = SCENARIOS[name]
     if isinstance(sc, dict):
-        c, threads, warm = (setup_many() if sc["product"] == "many" else setup_shared()), sc["threads"], sc.get("warm", False)
+        c, threads, warm = {"many": setup_many, "shared": setup_shared, "local": setup_local}[sc["product"]](), sc["threads"], sc.get("warm", False)
     else:
         c, threads, warm = setup(), sc, False
     tracer = sched.line_tracer(c["prefix"]) if lines else None
@@ -282,6 +301,10 @@ def plan(tier):
             for b in (0, 1, 2):
                 jobs.append({"scenario": name, "bound": b, "lines": False})
             continue
+        if isinstance(threads, dict) and threads["product"] == "local":
+            for b in (0, 1, 2, 3) if len(threads["threads"]) == 2 else (0, 1, 2):
+                jobs.append({"scenario": name, "bound": b, "lines": False})
+            continue
         if isinstance(threads, dict):
             jobs.append({"scenario": name, "bound": 1 if tier == "quick" else 2, "lines": False})
             continue
@@ -298,7 +321,7 @@ def plan(tier):
 def run(res, tier, seed):
     res.rule = (
         "scenarios {same variable overlapping/disjoint groups, single-line (integer) selections, different variables, original+pickled copy (same/other variable),"
-        " three threads, three threads with copies; six scenarios on a filesystem whose open() returns one shared, rewound file object per path (like memory://); every ordered pair of the 12 images of a ScanSAR product after each image was read once} x preemption bound 0..3 (2 threads) / 0..2 (3 threads) at filesystem+lock yield"
+        " three threads, three threads with copies; six scenarios on a filesystem whose open() returns one shared, rewound file object per path (like memory://); eight scenarios on the local filesystem (fsspec's LocalFileSystem with traced reads); every ordered pair of the 12 images of a ScanSAR product after each image was read once} x preemption bound 0..3 (2 threads) / 0..2 (3 threads) at filesystem+lock yield"
         " points; line-granular yield points inside ceos_alos2 at bound 1 (quick) / 2 (thorough). states = distinct event orders"
         " observed, transitions = scheduling decisions executed, traces = complete schedules executed on the real threads; the"
         " first schedules of every job and every failing schedule are replayed and must reproduce identical events."
